@@ -131,6 +131,23 @@ theorem roundtrip_subexpr_partial (e : Expr) (hwf : WF e) (outer : Nat) (side : 
   obtain ⟨N, h⟩ := rts_self (rt e hwf) outer side k term rest hterm hk hpos hno hin
   exact ⟨N, h N (Nat.le_refl _)⟩
 
+/-- **roundtrip_comma_positions_partial.** Initialiser expressions (d76894a), array sizes (a83e0d0) and call arguments are
+printed at `(17, CommaList)` and read with the `Sequence` terminator (`parse_expression_no_seq`): in front of `,`, `;`,
+`]` or `)` the printed tokens read back as the tree — a comma expression there is printed in parentheses. -/
+theorem roundtrip_comma_positions_partial (e : Expr) (hwf : WF e) (t : Tok) (rest : List Tok)
+    (ht : Closes .Sequence t) :
+    (initPrec = 17 ∧ initSide = .CommaList ∧ arraySizePrec = 17 ∧ arraySizeSide = .CommaList ∧
+     callArgPrec = 17 ∧ callArgSide = .CommaList ∧ initTerminator = .Sequence ∧ arraySizeTerminator = .Sequence ∧
+     callArgTerminator = .Sequence) ∧
+    ∃ fuel, parseLvl fuel 15 .Sequence (toks (fmtSub e 17 .CommaList) ++ t :: rest) = some (e, t :: rest) := by
+  refine ⟨by decide, ?_⟩
+  apply roundtrip_subexpr_partial e hwf 17 .CommaList 15 .Sequence (t :: rest) (by decide) (Nat.le_refl _)
+  · intro hp
+    have := pos_arg e hp
+    exact ⟨by omega, fun h => by omega⟩
+  · exact noLow_closes 15 _ _ _ ht
+  · exact fun _ => inert_closes 15 _ _ _ ht
+
 /-! ## Literals -/
 
 /-- **literal_roundtrip_partial** (token level). Every non-negative integer literal of every kind (within the range
